@@ -280,6 +280,12 @@ func actReencode(e *Env, a J) J {
 	if !eqJ(o["msg2"], o["msg1"]) {
 		o["c12"] = "msg-differs"
 		o["sig"] = "c12@msg-differs:" + diffPath(o["msg2"], o["msg1"], "msg")
+		if skNotLastOnly(m1, m2) {
+			// known finding F-C12-1: the only difference is Encrypted.NextPayload of an SK payload that is not the last
+			// payload of the message (RFC 7296 3.14 requires it to be last)
+			o["c12"] = "msg-differs:sk-not-last"
+			o["sig"] = "c12@msg-differs:sk-not-last"
+		}
 		return o
 	}
 	w2, err := encodeGuarded(m2)
@@ -294,6 +300,28 @@ func actReencode(e *Env, a J) J {
 	}
 	o["c12"] = "ok"
 	return o
+}
+
+// skNotLastOnly: the two messages are equal once Encrypted.NextPayload of every SK payload that is followed by another
+// payload is disregarded (and they are not equal otherwise; the caller has established that).
+func skNotLastOnly(m1, m2 *message.IKEMessage) bool {
+	if len(m1.Payloads) != len(m2.Payloads) {
+		return false
+	}
+	saved := map[*message.Encrypted]uint8{}
+	for _, m := range []*message.IKEMessage{m1, m2} {
+		for i, p := range m.Payloads {
+			if sk, ok := p.(*message.Encrypted); ok && i+1 < len(m.Payloads) {
+				saved[sk] = sk.NextPayload
+				sk.NextPayload = 0
+			}
+		}
+	}
+	same := len(saved) > 0 && eqJ(projMsg(m1), projMsg(m2))
+	for sk, v := range saved {
+		sk.NextPayload = v
+	}
+	return same
 }
 
 // encodeGuarded: C12 is conditional on "that message encodes again"; an encoder panic on a decoded value is
@@ -355,6 +383,13 @@ func actEapReencode(e *Env, a J) J {
 	o["enc1"] = true
 	o["wire1"] = octOf(w1)
 	o["same"] = string(w1) == string(wire)
+	// C20: encoding is a function of the value -- the same object encoded again and again gives the same octets
+	o["stable"] = true
+	for k := 0; k < 8; k++ {
+		if wk, err := marshalGuarded(p1); err != nil || string(wk) != string(w1) {
+			o["stable"] = false
+		}
+	}
 	p2 := new(eap.EAP)
 	if err := p2.Unmarshal(layouts(w1, false)[0]); err != nil {
 		o["c12"] = "dec2-error"
